@@ -36,10 +36,15 @@ func (r *ComDoc) readShortSAT() error {
 	var sat []SecID
 	chunk := make([]SecID, count)
 	sector := r.Header.SSATNextSector
+	seen := make(map[SecID]bool)
 	for sector >= 0 {
 		if int64(len(sat)) >= limit {
 			return errors.New("ssat has more sectors than indicated")
 		}
+		if seen[sector] {
+			return errors.New("ssat chain loops")
+		}
+		seen[sector] = true
 		if err := r.readSectorStruct(sector, chunk); err != nil {
 			return err
 		}
